@@ -474,3 +474,84 @@ theorem splitOffset_neg_natCast {b : Nat} (hb : 1 ≤ b) (k : Nat) :
   linarith
 
 end NormL
+
+namespace NormL
+
+theorem finalStepS_eq_middle_fst (bits b lsh : Nat) (x c : Int) :
+    finalStepS bits b lsh x c = (middleStepS bits b lsh x c).1 := by
+  unfold finalStepS middleStepS
+  split <;> rfl
+
+theorem middleRun_length (bits b lsh : Nat) (l : List Int) (c : Int) :
+    (middleRun bits b lsh l c).1.length = l.length := by
+  induction l with
+  | nil => rfl
+  | cons x rest ih => simp [middleRun, ih]
+
+theorem finalTopRun_eq_middleRun (bits b lsh : Nat) (l : List Int) (c : Int) :
+    finalTopRun bits b lsh l c = (middleRun bits b lsh l c).1 := by
+  cases l with
+  | nil => rfl
+  | cons x rest => simp [finalTopRun, middleRun, finalStepS_eq_middle_fst]
+
+theorem finalTopRun_nil (bits b lsh : Nat) (c : Int) : finalTopRun bits b lsh [] c = [] := rfl
+
+theorem zipWith_snd_eq {α : Type} (l : List α) (ds : List Int) (h : l.length = ds.length) :
+    List.zipWith (fun (_ : α) d => d) l ds = ds := by
+  induction l generalizing ds with
+  | nil => cases ds with
+    | nil => rfl
+    | cons d ds => simp at h
+  | cons x rest ih => cases ds with
+    | nil => simp at h
+    | cons d ds => simp at h; simp [ih ds h]
+
+/-- **`vec_znx_lsh` (overwrite form) is the same-radix normalisation with offset `+k`** -/
+theorem lshCoef_overwrite_eq {b : Nat} (hb : 1 ≤ b) (k : Nat) (a res : List Int) :
+    lshCoef .overwrite b k a res = normalizeInterCoef 64 b res.length (k : Int) a := by
+  have hso : splitOffset b (k : Int) = (k % b, ((k / b : Nat) : Int)) := by
+    apply splitOffset_unique hb _ _ _ _ (Nat.mod_lt k (by omega))
+    have hn : k = k / b * b + k % b := by
+      have := Nat.div_add_mod k b; rw [Nat.mul_comm] at this; omega
+    exact_mod_cast hn
+  unfold lshCoef normalizeInterCoef
+  rw [hso]
+  simp only [interRanges]
+  generalize k / b = steps
+  generalize k % b = lsh
+  have hg0 : Int.toNat (-(steps : Int) - (res.length : Int)) = 0 := by omega
+  rw [hg0, clampNat_neg, clampNat_sub, clampNat_natCast, clampNat_add]
+  simp only [Nat.zero_min, gapRun, List.replicate_zero, finalTopRun_nil, List.nil_append, Fuse.apply, if_true]
+  by_cases hbig : steps ≥ max res.length a.length
+  · rw [if_pos hbig]
+    have h1 : min steps a.length = a.length := by omega
+    have h2 : min (res.length + steps) a.length = a.length := by omega
+    have h3 : min (a.length - steps) res.length = 0 := by omega
+    rw [h1, h2, h3]
+    simp [middleRun]
+  · rw [if_neg hbig]
+    have hms : min res.length (a.length - steps) = min (a.length - steps) res.length := Nat.min_comm _ _
+    rw [hms]
+    set minSize := min (a.length - steps) res.length with hminSize
+    have hcos : min (steps + minSize) a.length = min (res.length + steps) a.length := by omega
+    rw [hcos]
+    set aStart := min (res.length + steps) a.length with haStart
+    have hlist : (a.take aStart).drop (min steps a.length) = (a.drop steps).take minSize := by
+      by_cases hsa : steps ≤ a.length
+      · have : min steps a.length = steps := by omega
+        rw [this, List.drop_take]
+        congr 1
+        omega
+      · have h1 : min steps a.length = a.length := by omega
+        have h2 : aStart = a.length := by omega
+        have h3 : a.drop steps = [] := List.drop_eq_nil_of_le (by omega)
+        rw [h1, h2, h3]
+        simp
+    rw [hlist, finalTopRun_eq_middleRun]
+    congr 1
+    apply zipWith_snd_eq
+    rw [middleRun_length]
+    simp only [List.length_take, List.length_drop]
+    omega
+
+end NormL
